@@ -25,6 +25,8 @@ def boot():
     os.environ.setdefault("MPLBACKEND", "Agg")
     if SRC not in sys.path[:1]:
         sys.path.insert(0, SRC)
+    from . import simfs
+    simfs.install_dispatch()        # before the library is imported (it may bind open / os.stat at import time)
     for m in [m for m in sys.modules if m == "CircuitCalculator" or m.startswith("CircuitCalculator.")]:
         del sys.modules[m]
     import CircuitCalculator  # noqa
